@@ -143,7 +143,7 @@ def check_case(case) -> Obs:
                     op["dw"] = {"t": "list", "w": [[0, c_] for c_ in range(nc)]}
                     op["vols"] = {"t": "list", "v": [round(2.5 * M, 2)] + [round(0.5 * M, 2)] * (nc - 1)}
                     op["cap"] = 3 * M
-                    op["label"] = ["", None, "LVH µ", "  "][k % 4]
+                    op["label"] = "" if k % 2 == 0 else [None, "LVH µ", "  "][k % 3]
                     obs.cls("lvh-mix-transfer")
             elif op.get("route") == "one2one":
                 # one source well, one destination well, a list of volumes
